@@ -5,7 +5,9 @@ package l2tp
 import (
 	"context"
 	"net"
+	"sort"
 	"testing"
+	"time"
 
 	"github.com/google/gopacket/layers"
 	"github.com/veesix-networks/osvbng/pkg/dataplane"
@@ -79,9 +81,58 @@ func c07L2TPDatagram(f []string) string {
 	return "ok 0"
 }
 
+// l2seq - <authorised host name> <datagram> ...: ONE component (built with New, no transmit function: tunnels have no
+// control channel, so every control message that parses reaches its handler) fed a sequence of datagrams from peer 10.0.0.2
+// through Dispatch, each under the watchdog.  After every datagram: 255, number of tunnels, then per tunnel (by local id)
+// local id, peer id, FSM state, number of sessions, then per session (by local id) local id, peer id, FSM state.
+func c07L2TPSequence(f []string) string {
+	auth := string(c07Arg(f, 0))
+	c := New(logger.NewTest())
+	defer c.Stop(context.Background())
+	c.resolveLNSConfig = func(h string) (LNSConfig, bool) { return LNSConfig{LocalHostname: "lns"}, h == auth }
+	peer := net.IPv4(10, 0, 0, 2)
+	var toks []string
+	for k := 1; k < len(f); k++ {
+		pkt := &dataplane.ParsedPacket{IPv4: &layers.IPv4{SrcIP: peer, DstIP: net.IPv4(10, 0, 0, 254)},
+			UDP: &layers.UDP{BaseLayer: layers.BaseLayer{Payload: c07Arg(f, k)}}}
+		if !c07Returns(3*time.Second, func() { _ = c.Dispatch(pkt) }) {
+			c07Hangs++
+			return "hang"
+		}
+		c.mu.RLock()
+		var tuns []*Tunnel
+		for _, t := range c.tunnels {
+			tuns = append(tuns, t)
+		}
+		c.mu.RUnlock()
+		sort.Slice(tuns, func(i, j int) bool { return tuns[i].LocalID < tuns[j].LocalID })
+		toks = append(toks, "255", c07U(uint64(len(tuns))))
+		for _, t := range tuns {
+			t.mu.Lock()
+			var ss []*Session
+			for _, s := range t.Sessions {
+				ss = append(ss, s)
+			}
+			t.mu.Unlock()
+			sort.Slice(ss, func(i, j int) bool { return ss[i].LocalID < ss[j].LocalID })
+			toks = append(toks, c07U(uint64(t.LocalID)), c07U(uint64(t.PeerID)), c07U(uint64(t.FSM.State())), c07U(uint64(len(ss))))
+			for _, s := range ss {
+				toks = append(toks, c07U(uint64(s.LocalID)), c07U(uint64(s.PeerID)), c07U(uint64(s.FSM.State())))
+			}
+		}
+	}
+	if len(toks) == 0 {
+		return "ok"
+	}
+	return c07Ok(toks...)
+}
+
 func c07IL2TP(entry string, n []uint64, f []string) string {
 	if entry == "l2dg" {
 		return c07L2TPDatagram(f)
+	}
+	if entry == "l2seq" {
+		return c07L2TPSequence(f)
 	}
 	if entry != "l2ppp" {
 		return "badline"
